@@ -217,6 +217,70 @@ pub fn guarded<T>(f: impl FnOnce() -> T) -> Result<T, String> {
     }
 }
 
+// ---------------------------------------------------------------------------------------------- case watchdog
+// A case of an in-process enumeration that never returns (the code under test loops for ever) would hang the whole
+// check. Every worker publishes "case i started at t" in a slot; a watchdog thread turns a case that has been
+// running for more than CASE_LIMIT_S seconds into a verdict and ends the process (the stuck thread cannot be
+// stopped). Cases take micro- to milliseconds; the limit is minutes.
+use std::sync::atomic::{AtomicU64, Ordering as AO};
+const SLOTS: usize = 256;
+static NOW_MS: AtomicU64 = AtomicU64::new(1);
+static CASE_START: [AtomicU64; SLOTS] = [const { AtomicU64::new(0) }; SLOTS];
+static CASE_INDEX: [AtomicU64; SLOTS] = [const { AtomicU64::new(0) }; SLOTS];
+static NEXT_SLOT: AtomicU64 = AtomicU64::new(0);
+static WATCHDOG: std::sync::Once = std::sync::Once::new();
+/// set by Run::new: what to report if a case hangs
+pub static HANG_REPORT: std::sync::Mutex<Option<Box<dyn Fn(u64, u64) + Send>>> = std::sync::Mutex::new(None);
+
+pub fn case_limit_s() -> u64 {
+    std::env::var("VERIF_CASE_LIMIT_S").ok().and_then(|s| s.parse().ok()).unwrap_or(240)
+}
+
+fn start_watchdog() {
+    WATCHDOG.call_once(|| {
+        let t0 = std::time::Instant::now();
+        std::thread::spawn(move || loop {
+            std::thread::sleep(std::time::Duration::from_millis(100));
+            let now = t0.elapsed().as_millis() as u64 + 1;
+            NOW_MS.store(now, AO::Relaxed);
+            for s in 0..SLOTS {
+                let st = CASE_START[s].load(AO::Relaxed);
+                if st != 0 && now > st + case_limit_s() * 1000 {
+                    let idx = CASE_INDEX[s].load(AO::Relaxed);
+                    if let Some(f) = HANG_REPORT.lock().unwrap_or_else(|e| e.into_inner()).as_ref() {
+                        f(idx, (now - st) / 1000);
+                    }
+                    eprintln!("WATCHDOG: case index {idx} has been running for {} s and nobody is registered to report it", (now - st) / 1000);
+                    std::process::exit(2);
+                }
+            }
+        });
+    });
+}
+
+/// a worker's slot for the duration of a parallel section
+struct Slot(usize);
+impl Slot {
+    fn take() -> Slot {
+        start_watchdog();
+        Slot((NEXT_SLOT.fetch_add(1, AO::Relaxed) as usize) % SLOTS)
+    }
+    #[inline]
+    fn begin(&self, i: usize) {
+        CASE_INDEX[self.0].store(i as u64, AO::Relaxed);
+        CASE_START[self.0].store(NOW_MS.load(AO::Relaxed), AO::Relaxed);
+    }
+    #[inline]
+    fn end(&self) {
+        CASE_START[self.0].store(0, AO::Relaxed);
+    }
+}
+impl Drop for Slot {
+    fn drop(&mut self) {
+        self.end();
+    }
+}
+
 /// Parallel map over 0..n with dynamic chunking; results returned in index order.
 pub fn par_map<T: Send, F: Fn(usize) -> T + Sync>(n: usize, threads: usize, f: F) -> Vec<T> {
     use std::sync::atomic::{AtomicUsize, Ordering};
@@ -226,6 +290,7 @@ pub fn par_map<T: Send, F: Fn(usize) -> T + Sync>(n: usize, threads: usize, f: F
         let hs: Vec<_> = (0..threads.max(1))
             .map(|_| {
                 sc.spawn(|| {
+                    let slot = Slot::take();
                     let mut local = Vec::new();
                     loop {
                         let s = next.fetch_add(chunk, Ordering::Relaxed);
@@ -233,7 +298,9 @@ pub fn par_map<T: Send, F: Fn(usize) -> T + Sync>(n: usize, threads: usize, f: F
                             break;
                         }
                         for i in s..(s + chunk).min(n) {
+                            slot.begin(i);
                             local.push((i, f(i)));
+                            slot.end();
                         }
                     }
                     local
@@ -256,6 +323,7 @@ pub fn par_fold<A: Send, F: Fn(&mut A, usize) + Sync, N: Fn() -> A + Sync>(n: us
         let hs: Vec<_> = (0..threads.max(1))
             .map(|_| {
                 sc.spawn(|| {
+                    let slot = Slot::take();
                     let mut acc = new();
                     loop {
                         let s = next.fetch_add(chunk, Ordering::Relaxed);
@@ -264,9 +332,11 @@ pub fn par_fold<A: Send, F: Fn(&mut A, usize) + Sync, N: Fn() -> A + Sync>(n: us
                         }
                         for i in s..(s + chunk).min(n) {
                             // safety net: a panic that escapes the per-call guards is recorded, not fatal
+                            slot.begin(i);
                             if let Err(p) = guarded(|| f(&mut acc, i)) {
                                 escaped(format!("case index {i}: {p}"));
                             }
+                            slot.end();
                         }
                     }
                     acc
